@@ -420,6 +420,16 @@ type sendRec struct {
 }
 
 func lcOracles(rc *core.RunCtx, env *Env, sc *lcScenario, mon *Monitor, p lcParams, probes map[string]*UMsg) {
+	// every Stop/Poison request has been acted upon by quiescence: a pill that
+	// an actor accepted and then lost (say, across a restart) leaves its caller
+	// waiting and the actor alive
+	for _, w := range env.Watches {
+		if w.DoneSeq == 0 {
+			rc.Violate2("C07", "ctx-never-done/lifecycle", "%s(%s) by %s: the context never became done", w.Kind, w.Target, w.By)
+			rc.Violate2("C03", "stop-request-never-processed", "%s(%s) by %s was accepted, but at quiescence nothing has acted on it: the actor rests with the request unprocessed", w.Kind, w.Target, w.By)
+			rc.Violate2("C05", "stop-request-lost-across-restart", "%s(%s) by %s: the context never became done", w.Kind, w.Target, w.By)
+		}
+	}
 	// index sends
 	sends := map[int]*sendRec{}
 	for _, e := range env.Evs {
@@ -978,6 +988,10 @@ func init() {
 		Run: runLifecycle(lcParams{focus: "C03", crashes: true, lifeCrashes: true}),
 		Doc: base + "stop-free, with crashes within the restart budget in Initialized/Started (also of the very first incarnation, restarted from the spawning goroutine before the inbox was opened) and on messages; oracle: at quiescence every message accepted by the started, not-stopped actor has been processed",
 		Faults: []string{"actor-crash-in-Initialized", "actor-crash-in-Started", "actor-crash-in-Receive"}})
+	core.Register(&core.Profile{Property: "C03", Name: "engine-restarts-poison", Weight: 1, Cfg: cfgEngine,
+		Run: runLifecycle(lcParams{focus: "C03", crashes: true, lifeCrashes: true, stops: true}),
+		Doc: base + "as 'engine-restarts', with Stop/Poison callers: at quiescence every request the actor accepted - pills included, also across restarts - has been acted upon",
+		Faults: []string{"actor-crash-in-Initialized", "actor-crash-in-Started", "actor-crash-in-Receive", "concurrent stop/poison"}})
 	core.Register(&core.Profile{Property: "C03", Name: "engine", Weight: 1, Cfg: cfgEngine,
 		Run: runLifecycle(lcParams{focus: "C03"}),
 		Doc: base + "stop-free and crash-free; oracle: at quiescence every send that produced no dead letter has been delivered"})
